@@ -4,7 +4,7 @@
    property failure.  The checker is consulted only on inputs the statement speaks about. *)
 From EsVerif.Common Require Import Base Bytes.
 From Coq.Strings Require String.
-From EsVerif.C07 Require Import Model Spec.
+From EsVerif.C07 Require Import Model Spec Verbose Swap.
 
 Definition res_eqb := result_eqb sarray_eqb.
 
@@ -66,3 +66,18 @@ Definition v_compare (a1 a2 : sarray) (ignore_missing : bool) (out : result bool
 (* plain (field-less) input of split_fields: outside the statement, correspondence only *)
 Definition v_split_plain (v : fview) (flds : option names_arg) (out : result (list fview)) : Z :=
   verdict (result_eqb (list_eqb fview_eqb) (split_plain v flds) out) true.
+
+(* compare_arrays(verbose=True): verdict AND the report written to stdout (parsed into events by
+   the harness) against Verbose.compare_arrays_v; the property checker judges the verdict *)
+Definition v_compare_v (a1 a2 : sarray) (ignore_missing : bool) (out : result (bool * list event)) : Z :=
+  verdict (wf_b a1 && wf_b a2 && result_eqb vout_eqb (compare_arrays_v a1 a2 true ignore_missing) out)
+          (if comparable_b a1 a2
+           then compare_check a1 a2 ignore_missing (match out with Ok x => Ok (fst x) | Err e => Err e end)
+           else true).
+
+(* copy_fields incl. common fields that differ only in byte order (Swap.v; equals v_copy's model
+   wherever the types are equal): demand for two arrays of the same shape whose common fields have
+   the same type up to byte order *)
+Definition v_copy_sw (a1 a2 : sarray) (out : result sarray) : Z :=
+  verdict (wf_b a1 && wf_b a2 && res_eqb (copy_fields_sw a1 a2) out)
+          (if zlist_eqb (shape a1) (shape a2) && compat_sw_b a1 a2 then copy_check_sw a1 a2 out else true).
